@@ -181,9 +181,12 @@ structure St where
   judgeOk : Bool := true
   notes : List String := []
 
-def note (st : St) (s : String) : St := if st.notes.length < 4 then { st with notes := st.notes ++ [s] } else st
+def clip (s : String) : String := if s.length > 700 then String.ofList (s.toList.take 700) ++ "…" else s
+def note (st : St) (s : String) : St := if st.notes.length < 6 then { st with notes := st.notes ++ [clip s] } else st
 def corrFail (st : St) (s : String) : St := note { st with corrOk := false } ("corr " ++ s)
-def judgeFail (st : St) (s : String) : St := note { st with judgeOk := false } ("judge " ++ s)
+/-- judge notes go first (they are what a replay is read for) -/
+def judgeFail (st : St) (s : String) : St :=
+  { st with judgeOk := false, notes := (clip ("judge " ++ s) :: st.notes).take 6 }
 
 def svcDefault : SvcRec := { info := ⟨[], [], [], [], []⟩ }
 
